@@ -188,6 +188,31 @@ func (c02) Cases(tier string, seed uint64) []fw.Case {
 			add("index-assign:[int][int]", program("[int]", va, "int", iv, "        a[b] = 5;\n        a[b] += 1;\n        probe(a);\n"), "list")
 		}
 	}
+	// annotated lets and arguments: every (declared type, value type) pair the analyzer admits,
+	// followed by a use of the value at its declared type
+	uses := map[string]string{"int": "probe(a + 1);", "float": "probe(a + 1.0);", "bool": "probe(!a);", "str": "probe(a + \"x\");", "[int]": "probe(a.len()); for e in a { probe(e + 1); }",
+		"?int": "probe(a.unwrap_or(0) + 1);", "{ a: int }": "probe(a.a + 1);", "{ ? }": "probe(a.keys());", "range": "probe(a.start + 1);",
+		"?str": "probe(a.unwrap_or(\"\") + \"x\");", "[str]": "for e in a { probe(e + \"x\"); }", "{ a: str }": "probe(a.a + \"x\");"}
+	extra := []typ{{"?str", []string{`?"s"`, "none"}, "option"}, {"[str]", []string{`["x"]`, "[]"}, "list"}, {"{ a: str }", []string{`new { a: "s" }`}, "object"}}
+	all := append(append([]typ{}, types...), extra...)
+	for _, ta := range all {
+		for _, tb := range all {
+			for form := 0; form < 2; form++ {
+				mk := func(vb string) string {
+					if form == 0 {
+						return "fn main() {\n    let b: " + tb.name + " = " + vb + ";\n    try {\n        let a: " + ta.name + " = b;\n        " + uses[ta.name] + "\n    } catch e {\n        println(\"caught\", e.message);\n    }\n}\n"
+					}
+					return "fn f(a: " + ta.name + ") {\n    " + uses[ta.name] + "\n}\nfn main() {\n    try {\n        f(" + vb + ");\n    } catch e {\n        println(\"caught\", e.message);\n    }\n}\n"
+				}
+				if !admitted(mk(tb.vals[0])) {
+					continue
+				}
+				for _, vb := range tb.vals {
+					add(fmt.Sprintf("annot%d:%s<-%s", form, ta.name, tb.name), mk(vb), "")
+				}
+			}
+		}
+	}
 	// (2) limits sweep over generated programs
 	r := fw.NewRng(seed ^ 0xC02)
 	nl := 1500
